@@ -300,11 +300,9 @@ def spec(tier, seed):
             continue
         p0 = None if inspect.isclass(f) else list(inspect.signature(f).parameters)[0]
         for cls in "HDS":
-            if p0 in ("S", "SC") and cls != "S":
-                continue
             heavy = name.startswith("draw") or name.endswith("_layout")
             for k, s in enumerate(sh[cls][:2] if heavy and tier == "quick" else sh[cls]):
-                for mode in ("sym", "conc"):
+                for mode in (("sym", "conc") if tier != "quick" or k < 2 else (("sym",) if k % 2 == 0 else ("conc",))):
                     units.append(("C08.func", {"f": name, "cls": cls, "shape": s, "mode": mode, "kind": name}))
                 if k == 1 and not heavy and not inspect.isclass(f):
                     # every combination of the boolean options, on one shape per class
